@@ -7,6 +7,13 @@ stored integrals are never mutated; interior integrals of the uniform cubic case
 auxiliary construction of its boundary integrals is translation invariant.  Given correct
 integrals, int S = c.I = (A^{-1}u).I = u.(A^{-T}I).  Correctness of _build_integrals itself
 (the two defects named in the property text) is numerical and is NOT claimed.
+
+Every rule reads the method as the straight-line code it is on a periodic resp. clamped
+(uniform-cubic resp. general) space: branches on the kind of space are resolved, locals that only
+rename an attribute and private helper methods are written back (C07.Specialiser), so that
+guard clauses, if/else, extracted helpers and renamed locals all look alike.  A rule HOLDS when
+the mechanism is recognised, is VIOLATED only for a recognised wrong form, and is UNDECIDED
+otherwise.
 """
 from __future__ import annotations
 
@@ -14,80 +21,388 @@ import ast
 
 import sympy as sp
 
-from ..core import src, AnalysisError, parent, same_expr, contains
+from ..core import src, contains, find
 from .. import units as U
 from .. import lints
 from ..npsym import NpSym
 from ..symx import alg_equal, Undecided
+from .C07 import Specialiser, walk_guarded, own_exprs, _int_attr
+
+QF = "SplineInterpolator1D.get_quadrature_coefficients"
+INTEGRALS = ("self._basis.integrals", "self._basis._integrals")
+N, P = sp.Symbol("n", integer=True, positive=True), sp.Symbol("p", integer=True, positive=True)
+
+
+def _flat(body):
+    """all statements of a specialised body, in order (compound statements included, followed by their parts)"""
+    return [st for st, _g in walk_guarded(body)]
+
+
+def _def_of(name, body, before=None):
+    """last assignment `name = ...` / `name, x = ...` of a specialised body (before a statement) -> (statement, value or (value, index))"""
+    got = None
+    for st in _flat(body):
+        if st is before:
+            break
+        if isinstance(st, ast.Assign) and len(st.targets) == 1:
+            t = st.targets[0]
+            if isinstance(t, ast.Name) and t.id == name:
+                got = (st, st.value, None)
+            elif isinstance(t, ast.Tuple):
+                for k, el in enumerate(t.elts):
+                    if isinstance(el, ast.Name) and el.id == name:
+                        got = (st, st.value, k)
+    return got
+
+
+def _interp_table(periodic):
+    t = {}
+    for a in ("nbasis", "_nbasis"):
+        t[f"self._basis.{a}"] = N
+    for a in ("degree", "_degree"):
+        t[f"self._basis.{a}"] = P
+    for a in ("ncells", "_ncells"):
+        t[f"self._basis.{a}"] = N if periodic else N - P
+    return t
+
+
+def _slice_bounds(sub, table, length):
+    """[lo, hi) of `X[a:b]` as sympy values; None when it is no plain slice"""
+    if not isinstance(sub, ast.Subscript) or not isinstance(sub.slice, ast.Slice) or sub.slice.step is not None:
+        return None
+    lo = sp.Integer(0) if sub.slice.lower is None else _int_attr(sub.slice.lower, table)
+    hi = length if sub.slice.upper is None else _int_attr(sub.slice.upper, table)
+    if lo is None or hi is None:
+        return None
+    # a negative bound counts from the end
+    lo = lo + length if lo.is_negative else lo
+    hi = hi + length if hi.is_negative else hi
+    return lo, hi
+
+
+def _same(a, b):
+    return sp.expand(a - b) == 0
+
+
+def _copy_or_view(e):
+    """(inner expression, True if `e` is a fresh array / False if it may share memory / None unknown)"""
+    if isinstance(e, ast.Call):
+        f = src(e.func)
+        if isinstance(e.func, ast.Attribute) and e.func.attr in ("copy", "astype", "flatten") and not e.args:
+            return e.func.value, True
+        if f in ("np.copy", "np.array", "numpy.array", "numpy.copy") and e.args and not any(k.arg == "copy" for k in e.keywords):
+            return e.args[0], True
+        if f in ("np.asarray", "np.asanyarray", "np.ascontiguousarray", "np.atleast_1d", "np.require") and e.args:
+            return e.args[0], False
+        if isinstance(e.func, ast.Attribute) and e.func.attr in ("view", "ravel", "reshape", "squeeze"):
+            return e.func.value, False
+        return e, None
+    if isinstance(e, ast.BinOp):
+        return e, True
+    return e, False
 
 
 def weights_mechanism(chk):
-    fn = chk.func(U.INTERP, "SplineInterpolator1D.get_quadrature_coefficients")
-    ifs = [n for n in fn.body if isinstance(n, ast.If)]
-    if len(ifs) != 1 or src(ifs[0].test) != "self._basis.periodic":
-        raise AnalysisError("C09: periodic/clamped dispatch of get_quadrature_coefficients not found")
-    per, cla = ifs[0].body, ifs[0].orelse
-    okc = contains(cla, "c, self._sinfo = self._solveFunc(self._bmat, self._l, self._u, self._basis.integrals, self._ipiv, trans=True)\nreturn c")
-    chk.ob("Q1-transposed-solve", ifs[0], "clamped: solve(A, integrals, trans=True)", okc,
-           "the weights solve the transposed collocation system with the interpolation factors and the stored basis integrals"
-           if okc else "clamped weights are not A^{-T} I with the interpolation factors", file=U.INTERP,
-           func="SplineInterpolator1D.get_quadrature_coefficients")
-    okp = contains(per, "return self._splu.solve(basis_quads, trans='T')")
-    chk.ob("Q1-transposed-solve", ifs[0], "periodic: splu.solve(folded integrals, trans='T')", okp,
-           "the periodic weights solve the transposed system with the interpolation LU" if okp else
-           "periodic weights are not the transposed solve with the interpolation LU", file=U.INTERP,
-           func="SplineInterpolator1D.get_quadrature_coefficients")
-    okf = contains(per, "basis_quads = self._basis.integrals[:n].copy()\nbasis_quads[:p] += self._basis.integrals[n:]") and \
-        contains(fn, "n = self._basis.nbasis\np = self._basis.degree")
-    chk.ob("Q2-periodic-fold", ifs[0], "I[:n] (copy) with I[n:] added onto the first p entries", okf,
-           "because c[n+i] = c[i], the integrals of the p wrapped copies are added to the first p basis integrals, on a copy"
-           if okf else "the wrapped integrals are not folded onto the first p entries of a copy", file=U.INTERP,
-           func="SplineInterpolator1D.get_quadrature_coefficients")
-    muts = lints.shared_state_mutations(fn, lambda s: s.endswith(".integrals") or s.endswith("._integrals"))
-    chk.ob("G2-no-shared-mutation", fn, "get_quadrature_coefficients vs basis.integrals", not muts,
+    imod = chk.mod(U.INTERP)
+    fn = chk.func(U.INTERP, QF)
+    bodies = {}
+    for per in (True, False):
+        sp_ = Specialiser(imod, "SplineInterpolator1D", facts={"self._basis.periodic": per, "self._basis._periodic": per})
+        bodies[per] = sp_.run("get_quadrature_coefficients")
+    # ---- periodic: the value returned is splu.solve(<folded integrals>, trans='T')
+    body = bodies[True]
+    rets = [st for st in _flat(body) if isinstance(st, ast.Return)]
+    okp, badp, rhs = False, None, None
+    if len(rets) == 1 and rets[0].value is not None:
+        v = rets[0].value
+        if isinstance(v, ast.Name):
+            d = _def_of(v.id, body, rets[0])
+            if d is not None and d[2] is None:
+                v = d[1]
+        if isinstance(v, ast.Call) and src(v.func) == "self._splu.solve" and v.args:
+            rhs = v.args[0]
+            tr = [k.value for k in v.keywords if k.arg == "trans"] or list(v.args[1:2])
+            if tr and isinstance(tr[0], ast.Constant) and tr[0].value in ("T", "H"):
+                okp = True
+            elif not tr or (isinstance(tr[0], ast.Constant) and tr[0].value == "N"):
+                badp = (f"`{src(v)[:70]}` solves A w = I with the interpolation matrix itself, not with its transpose: the result is not "
+                        "the vector of quadrature weights (u.w differs from the integral of the interpolant)")
+    chk.pat("Q1-transposed-solve", rets[0] if rets else fn, "periodic: splu.solve(folded integrals, trans='T')", okp,
+            "the periodic weights solve the transposed system with the interpolation LU", badp, file=U.INTERP, func=QF)
+    # ---- periodic: the right-hand side is I[:n] (a copy) with I[n:] added onto its first p entries
+    periodic_fold(chk, fn, body, rhs)
+    # ---- clamped: the value returned is solveFunc(bmat, l, u, integrals, ipiv, trans=True)
+    body = bodies[False]
+    rets = [st for st in _flat(body) if isinstance(st, ast.Return)]
+    okc, badc = False, None
+    call = None
+    if len(rets) == 1 and rets[0].value is not None:
+        v = rets[0].value
+        if isinstance(v, ast.Name):
+            d = _def_of(v.id, body, rets[0])
+            if d is not None and d[2] in (None, 0):
+                v = d[1]
+        elif isinstance(v, ast.Subscript) and isinstance(v.slice, ast.Constant) and v.slice.value == 0:
+            v = v.value
+        if isinstance(v, ast.Call) and src(v.func) == "self._solveFunc":
+            call = v
+    if call is not None:
+        names = ["ab", "kl", "ku", "b", "ipiv"]
+        got = {n_: a for n_, a in zip(names, call.args)}
+        for k in call.keywords:
+            if k.arg in names:
+                got[k.arg] = k.value
+        tr = [k.value for k in call.keywords if k.arg == "trans"] or list(call.args[5:6])
+        want = {"ab": "self._bmat", "kl": "self._l", "ku": "self._u", "ipiv": "self._ipiv"}
+        wrong = [f"`{k}` receives `{src(got[k])}` instead of `{w}`" for k, w in want.items() if k in got and src(got[k]) != w
+                 and src(got[k]) in want.values()]
+        unknown = [k for k, w in want.items() if k not in got or (src(got[k]) != w and src(got[k]) not in want.values())]
+        b = got.get("b")
+        b_in, fresh = _copy_or_view(b) if b is not None else (None, None)
+        b_ok = b is not None and (src(b) in INTEGRALS or src(b_in) in INTEGRALS)
+        if wrong:
+            badc = "; ".join(wrong) + ": the banded solve is given the factors of the interpolation matrix in the wrong places"
+        elif not tr or (isinstance(tr[0], ast.Constant) and tr[0].value in (False, 0, "N")):
+            badc = (f"`{src(call)[:80]}` solves A w = I, not the transposed system: the result is not the vector of quadrature weights")
+        elif not unknown and b_ok and isinstance(tr[0], ast.Constant) and tr[0].value in (True, 1, 2, "T", "H"):
+            okc = True
+    chk.pat("Q1-transposed-solve", rets[0] if rets else fn, "clamped: solve(A, integrals, trans=True)", okc,
+            "the weights solve the transposed collocation system with the interpolation factors and the stored basis integrals", badc,
+            file=U.INTERP, func=QF)
+    # ---- the stored integrals are not written through (on either path, helpers included)
+    allm = []
+    for per, body in bodies.items():
+        shell = ast.FunctionDef(name="get_quadrature_coefficients", args=fn.args, body=body or [ast.Pass()], decorator_list=[], lineno=fn.lineno)
+        for node, d in lints.shared_state_mutations(shell, lambda s: s.endswith(".integrals") or s.endswith("._integrals")):
+            if d not in [x[1] for x in allm]:
+                allm.append((node, d))
+    muts = allm
+    chk.ob("G2-no-shared-mutation", muts[0][0] if muts else fn, "get_quadrature_coefficients vs basis.integrals", not muts,
            "the stored basis integrals are only read" if not muts else "; ".join(d for _, d in muts) +
-           " - a second request (or another interpolator on the same basis) gets wrong weights", file=U.INTERP,
-           func="SplineInterpolator1D.get_quadrature_coefficients")
-    # the factorisation used here is the one compute_interpolant uses (same attributes)
-    sn = chk.func(U.INTERP, "SplineInterpolator1D._solve_system_nonperiodic")
-    sp_ = chk.func(U.INTERP, "SplineInterpolator1D._solve_system_periodic")
-    oks = contains(sn, "self._solveFunc(self._bmat, self._l, self._u, ug, self._ipiv)") and contains(sp_, "self._splu.solve(ug)")
-    chk.ob("Q1-same-factorisation", fn, "interpolation and quadrature share (bmat, l, u, ipiv) / splu", oks,
-           "interpolation solves A c = u and quadrature A^T w = I with one factorisation" if oks else
-           "interpolation no longer uses the same factors", file=U.INTERP, func="SplineInterpolator1D.get_quadrature_coefficients")
+           " - a second request (or another interpolator on the same basis) gets wrong weights", file=U.INTERP, func=QF)
+    # ---- the factorisation used here is the one compute_interpolant uses (same attributes)
+    found = {}
+    for per in (True, False):
+        sp_ = Specialiser(imod, "SplineInterpolator1D", facts={"self._basis.periodic": per, "self._basis._periodic": per})
+        cb = sp_.run("compute_interpolant")
+        chk.functions.add(f"{U.INTERP}:SplineInterpolator1D.compute_interpolant")
+        calls = [c for st in _flat(cb) for c in own_exprs(st) if isinstance(c, ast.Call) and
+                 src(c.func) == ("self._splu.solve" if per else "self._solveFunc")]
+        found[per] = calls
+    oks = bool(found[True]) and bool(found[False])
+    if oks:
+        c = found[False][0]
+        oks = [src(a) for a in c.args[:3]] == ["self._bmat", "self._l", "self._u"] or None
+    chk.pat("Q1-same-factorisation", fn, "interpolation and quadrature share (bmat, l, u, ipiv) / splu", oks,
+            "interpolation solves A c = u and quadrature A^T w = I with one factorisation", file=U.INTERP, func=QF)
     pr = chk.func(U.SPLINES, "BSplines.integrals")
-    okr = contains(pr, "return self._integrals")
-    chk.ob("Q1-same-factorisation", pr, "BSplines.integrals returns the stored integrals", okr, "", file=U.SPLINES, func="BSplines.integrals",
-           nontrivial=False)
+    rets = [r.value for r in ast.walk(pr) if isinstance(r, ast.Return)]
+    okr = bool(rets) and all(r is not None and src(_copy_or_view(r)[0] if isinstance(r, ast.Call) else r) == "self._integrals" for r in rets)
+    chk.pat("Q1-same-factorisation", pr, "BSplines.integrals returns the stored integrals", okr, "", file=U.SPLINES, func="BSplines.integrals",
+            nontrivial=False)
+
+
+def periodic_fold(chk, fn, body, rhs):
+    table = _interp_table(True)
+    ok, bad = False, None
+    node = fn
+    ints = {}
+    for st in _flat(body):
+        if isinstance(st, ast.Assign) and len(st.targets) == 1 and isinstance(st.targets[0], ast.Name):
+            v = _int_attr(st.value, {**table, **ints})
+            if v is not None:
+                ints[st.targets[0].id] = v
+    table = {**table, **ints}
+    if isinstance(rhs, ast.Name):
+        d = _def_of(rhs.id, body)
+        folds = [st for st in _flat(body) if (isinstance(st, ast.AugAssign) and isinstance(st.op, ast.Add) and isinstance(st.target, ast.Subscript)
+                                               and src(st.target.value) == rhs.id)
+                 or (isinstance(st, ast.Assign) and isinstance(st.targets[0], ast.Subscript) and src(st.targets[0].value) == rhs.id)]
+        if d is not None and d[2] is None:
+            node = d[0]
+            inner, fresh = _copy_or_view(d[1])
+            base = _slice_bounds(inner, table, N + P)
+            from_int = isinstance(inner, ast.Subscript) and src(inner.value) in INTEGRALS
+            whole = src(inner) in INTEGRALS
+            if (from_int and base is not None) or whole:
+                lo, hi = base if base is not None else (sp.Integer(0), N + P)
+                if not (_same(lo, 0) and _same(hi, N)):
+                    bad = (f"the right-hand side starts from the integrals [{lo}, {hi}) instead of the n = nbasis integrals [0, n): the "
+                           "periodic system has n unknowns, one per distinct basis function")
+                elif not folds:
+                    bad = ("the integrals of the p wrapped copies (entries n..n+p-1) are never added to the first p entries: because "
+                           "c[n+i] = c[i] each of the first p coefficients multiplies two integrals, and the weights lose the second")
+                else:
+                    f = folds[0]
+                    node = f
+                    tgt = f.target if isinstance(f, ast.AugAssign) else f.targets[0]
+                    val = f.value
+                    if isinstance(f, ast.Assign):
+                        # R[a:b] = R[a:b] + X
+                        if isinstance(val, ast.BinOp) and isinstance(val.op, ast.Add) and src(val.left) == src(tgt):
+                            val = val.right
+                        elif isinstance(val, ast.BinOp) and isinstance(val.op, ast.Add) and src(val.right) == src(tgt):
+                            val = val.left
+                        else:
+                            val = None
+                    tb = _slice_bounds(tgt, table, N)
+                    rev = val is not None and isinstance(val, ast.Subscript) and isinstance(val.slice, ast.Slice) and val.slice.step is not None
+                    vb = _slice_bounds(val, table, N + P) if val is not None and not rev else None
+                    v_from = val is not None and isinstance(val, ast.Subscript) and (src(val.value) in INTEGRALS)
+                    if rev:
+                        bad = (f"`{src(f)}` adds the integrals of the wrapped copies in another order (`{src(val)}`): entry n+i is the "
+                               "wrapped copy of basis function i, so it must be added to entry i")
+                    elif tb is None or vb is None or not v_from:
+                        bad = None
+                    elif not (_same(tb[0], 0) and _same(tb[1], P) and _same(vb[0], N) and _same(vb[1], N + P)):
+                        bad = (f"`{src(f)}` adds the integrals [{vb[0]}, {vb[1]}) onto the entries [{tb[0]}, {tb[1]}): the wrapped copies are "
+                               "the entries [n, n+p) and belong to the first p basis functions [0, p)")
+                    elif fresh is False:
+                        bad = (f"`{src(d[0])[:80]}` does not copy: the fold `{src(f)}` adds the wrapped integrals into the integrals stored in "
+                               "the basis - the first call is right, every later request (any interpolator on this basis) adds them again")
+                    elif fresh:
+                        ok = True
+    elif rhs is not None and (src(rhs) in INTEGRALS or (isinstance(rhs, ast.Subscript) and src(rhs.value) in INTEGRALS)):
+        bad = ("the transposed solve receives the stored integrals without the fold of the wrapped copies: the periodic system has n "
+               "unknowns and each of the first p of them multiplies two integrals")
+    chk.pat("Q2-periodic-fold", node, "I[:n] (copy) with I[n:] added onto the first p entries", ok,
+            "because c[n+i] = c[i], the integrals of the p wrapped copies are added to the first p basis integrals, on a copy", bad,
+            file=U.INTERP, func=QF)
+
+
+# --------------------------------------------------------------------------
+BI = "BSplines._build_integrals"
+NC, D = sp.Symbol("ncells", integer=True, positive=True), sp.Symbol("d", integer=True, positive=True)
+
+
+def _space_table(periodic):
+    t = {}
+    for a in ("ncells", "_ncells"):
+        t[f"self.{a}"] = NC
+    for a in ("degree", "_degree"):
+        t[f"self.{a}"] = D
+    for a in ("nbasis", "_nbasis"):
+        t[f"self.{a}"] = NC if periodic else NC + D
+    return t
+
+
+def _facts(cu, per):
+    return {"self.cubic_uniform": cu, "self._cubic_uniform_splines": cu, "self.periodic": per, "self._periodic": per}
+
+
+def _is_integrals(e):
+    return src(e) in ("self._integrals", "self.integrals")
 
 
 def uniform_cubic_integrals(chk):
-    fn = chk.func(U.SPLINES, "BSplines._build_integrals")
-    ifs = [n for n in fn.body if isinstance(n, ast.If) and src(n.test) == "self.cubic_uniform"]
-    if len(ifs) != 1:
-        raise AnalysisError("C09: cubic-uniform branch of _build_integrals not found")
-    cu = ifs[0].body
-    okh = contains(fn, "self._integrals = np.empty(self.ncells + d)") and contains(fn, "n = self.nbasis\nd = self.degree")
-    chk.ob("Q3-integrals-storage", fn, "integrals array has ncells + degree entries (unwrapped basis functions)", okh, "", file=U.SPLINES,
-           func="BSplines._build_integrals", nontrivial=False)
-    okper = contains(cu, "if self.periodic:\n    self._integrals[:] = dx\n    self._integrals[n:] = 0")
-    chk.ob("Q3-uniform-cubic", ifs[0], "periodic uniform cubic: dx for the n functions, 0 for the wrapped copies", okper,
+    smod = chk.mod(U.SPLINES)
+    fn = chk.func(U.SPLINES, BI)
+    bodies = {(cu, per): Specialiser(smod, "BSplines", facts=_facts(cu, per)).run("_build_integrals")
+              for cu in (True, False) for per in (True, False)}
+    # ---- storage: ncells + degree entries on every kind of space
+    okh, badh, node = True, None, fn
+    for (cu, per), body in bodies.items():
+        table = _space_table(per)
+        allocs = [st for st in _flat(body) if isinstance(st, ast.Assign) and _is_integrals(st.targets[0]) and isinstance(st.value, ast.Call)
+                  and src(st.value.func) in ("np.empty", "np.zeros", "np.ones", "np.full") and st.value.args]
+        if len(allocs) != 1:
+            okh = None if okh else okh
+            continue
+        size = _int_attr(allocs[0].value.args[0], table)
+        if size is None:
+            okh = None if okh else okh
+        elif not _same(size, NC + D):
+            okh, node = False, allocs[0]
+            badh = (f"`{src(allocs[0])}` has {size} entries on a {'periodic' if per else 'clamped'} space: the integrals are those of the "
+                    "ncells + degree unwrapped basis functions (on a periodic space the degree wrapped copies included)")
+    chk.ob("Q3-integrals-storage", node, "integrals array has ncells + degree entries (unwrapped basis functions)", okh,
+           "" if okh else (badh or "allocation of the integrals array not recognised"), file=U.SPLINES, func=BI, nontrivial=False)
+    # ---- periodic uniform cubic: dx for the n functions, 0 for the wrapped copies
+    body = bodies[(True, True)]
+    table = _space_table(True)
+    dxs = set()
+    for st in _flat(body):
+        if isinstance(st, ast.Assign) and isinstance(st.targets[0], ast.Tuple) and len(st.targets[0].elts) == 4 and src(st.value) in ("self.knots", "self._knots") \
+                and isinstance(st.targets[0].elts[2], ast.Name):
+            dxs.add(st.targets[0].elts[2].id)
+        if isinstance(st, ast.Assign) and isinstance(st.targets[0], ast.Name) and src(st.value) in ("self.knots[2]", "self._knots[2]"):
+            dxs.add(st.targets[0].id)
+    seg = {"first": None, "wrapped": None}       # value of the entries [0, n) and [n, n+3)
+
+    def fill_value(e):
+        if (isinstance(e, ast.Name) and e.id in dxs) or src(e) in ("self.knots[2]", "self._knots[2]"):
+            return "dx"
+        if isinstance(e, ast.Constant) and e.value == 0 and not isinstance(e.value, bool):
+            return "0"
+        return None
+    for st in _flat(body):
+        if isinstance(st, ast.Assign) and _is_integrals(st.targets[0]) and isinstance(st.value, ast.Call):
+            f = src(st.value.func)
+            if f == "np.zeros":
+                seg["first"] = seg["wrapped"] = "0"
+            elif f == "np.full" and len(st.value.args) >= 2 and fill_value(st.value.args[1]):
+                seg["first"] = seg["wrapped"] = fill_value(st.value.args[1])
+    okper, badper = None, None
+    stores = [st for st in _flat(body) if isinstance(st, ast.Assign) and isinstance(st.targets[0], ast.Subscript) and _is_integrals(st.targets[0].value)]
+    other = [st for st in _flat(body) if isinstance(st, ast.AugAssign) and isinstance(st.target, ast.Subscript) and _is_integrals(st.target.value)]
+    decided = (bool(stores) or seg["first"] is not None) and not other
+    for st in stores:
+        b = _slice_bounds(st.targets[0], table, NC + D)
+        v = fill_value(st.value)
+        if b is None or v is None:
+            decided = False
+            break
+        lo, hi = b
+        if _same(lo, 0) and _same(hi, NC + D):
+            seg["first"] = seg["wrapped"] = v
+        elif _same(lo, 0) and _same(hi, NC):
+            seg["first"] = v
+        elif _same(lo, NC) and _same(hi, NC + D):
+            seg["wrapped"] = v
+        else:
+            decided = False
+            break
+    if decided:
+        if seg["first"] == "dx" and seg["wrapped"] == "0":
+            okper = True
+        else:
+            okper = False
+            badper = (f"on a periodic uniform cubic space the n basis functions get `{seg['first']}` and the wrapped copies `{seg['wrapped']}`: "
+                      "every function integrates to dx and the wrapped copies must carry 0, because the quadrature folds them onto the "
+                      "first entries (a non-zero value is counted twice, an unset one is garbage)")
+    chk.ob("Q3-uniform-cubic", stores[0] if stores else fn, "periodic uniform cubic: dx for the n functions, 0 for the wrapped copies", okper,
            "every periodic uniform cubic B-spline integrates to dx; the wrapped copies carry nothing extra" if okper else
-           "periodic uniform-cubic integrals changed", file=U.SPLINES, func="BSplines._build_integrals")
-    # clamped uniform cubic: every function starts from the full integral dx and loses what lies outside the domain, at both ends
-    okint = contains(cu, "self._integrals[:] = dx")
-    old_int = contains(cu, "self._integrals[d:-d] = dx")
-    chk.pat("Q3-uniform-cubic", ifs[0], "clamped uniform cubic: all integrals start from dx", okint,
+           (badper or "periodic uniform-cubic integrals not recognised"), file=U.SPLINES, func=BI)
+    # ---- clamped uniform cubic: every function starts from the full integral dx and loses what lies outside the domain, at both ends
+    cu = bodies[(True, False)]
+    V = ["dx", "values"]          # the names of these two locals are free, but they must be the cell size / the basis values
+    dx_names = set()
+    for st in _flat(cu):
+        if isinstance(st, ast.Assign) and isinstance(st.targets[0], ast.Tuple) and len(st.targets[0].elts) == 4 and \
+                src(st.value) in ("self.knots", "self._knots") and isinstance(st.targets[0].elts[2], ast.Name):
+            dx_names.add(st.targets[0].elts[2].id)
+        if isinstance(st, ast.Assign) and isinstance(st.targets[0], ast.Name) and src(st.value) in ("self.knots[2]", "self._knots[2]"):
+            dx_names.add(st.targets[0].id)
+    val_names = {src(c.args[4]) for st in _flat(cu) for c in own_exprs(st) if isinstance(c, ast.Call) and src(c.func) == "nu_basis_funs"
+                 and len(c.args) >= 5}
+
+    def has(fragment):
+        b = find(cu, fragment, vars=V)
+        return b is not None and b.get("dx", next(iter(dx_names), None)) in dx_names and ("values" not in b or b["values"] in val_names)
+    okint = has("self._integrals[:] = dx") or contains(cu, "self._integrals[:] = self.knots[2]")
+    old_int = has("self._integrals[d:-d] = dx") or has("self._integrals[self.degree:-self.degree] = dx") or has("self._integrals[3:-3] = dx")
+    chk.pat("Q3-uniform-cubic", fn, "clamped uniform cubic: all integrals start from dx", okint,
             "a cardinal cubic B-spline integrates to dx; boundary functions lose the part outside the domain (next rule)",
             ("only the interior entries `[d:-d]` are set to dx: with fewer than three cells there is no interior and a function that "
              "reaches both boundaries gets one end's value only") if old_int and not okint else None,
-            file=U.SPLINES, func="BSplines._build_integrals")
+            file=U.SPLINES, func=BI)
     # auxiliary construction: knots = linspace(x0, x0 + 11 dx, 12), test point = x0 + 4 dx  (same origin x0)
     xmin, dx = sp.symbols("xmin dx", real=True)
-    kn = [n for st in cu for n in ast.walk(st) if isinstance(n, ast.Assign) and src(n.targets[0]) == "knots"]
-    tp = [n for st in cu for n in ast.walk(st) if isinstance(n, ast.Assign) and src(n.targets[0]) == "test_pt"]
+    aux = [c for st in _flat(cu) for c in own_exprs(st) if isinstance(c, ast.Call) and src(c.func) == "nu_basis_funs" and len(c.args) >= 3]
     ok = None
     why = "auxiliary knot vector / test point not found"
+    kn_node = None
+
     def affine_knots(v, n_):
         """(first knot, spacing) of a uniform knot vector expression, or None"""
         if isinstance(v, ast.Call) and src(v.func) == "np.linspace" and len(v.args) == 3:
@@ -111,76 +426,119 @@ def uniform_cubic_integrals(chk):
                 return kr[0] + n_.ev(v.left), kr[1]
         return None
 
-    if kn and tp:
-        n_ = NpSym(env={"xmin": xmin, "dx": dx})
+    if aux:
+        call = aux[0]
+        st_of = next(st for st in _flat(cu) if any(c is call for c in own_exprs(st)))
+
+        def resolve(e, depth=0):
+            if isinstance(e, ast.Name) and depth < 4:
+                d_ = _def_of(e.id, cu, st_of)
+                if d_ is not None and d_[2] is None:
+                    return d_[0], d_[1]
+            return None, e
+        kn_node, kv = resolve(call.args[0])
+        _, tv = resolve(call.args[2])
+        env = {"xmin": xmin, "dx": dx}
+        # the names the unpacking of self.knots gives to xmin and dx
+        for st in _flat(cu):
+            if isinstance(st, ast.Assign) and isinstance(st.targets[0], ast.Tuple) and len(st.targets[0].elts) == 4 and \
+                    src(st.value) in ("self.knots", "self._knots"):
+                a0, a2 = st.targets[0].elts[0], st.targets[0].elts[2]
+                if isinstance(a0, ast.Name):
+                    env[a0.id] = xmin
+                if isinstance(a2, ast.Name):
+                    env[a2.id] = dx
+        n_ = NpSym(env=env, hooks={"self.knots[0]": xmin, "self.knots[2]": dx, "self._knots[0]": xmin, "self._knots[2]": dx})
         try:
-            ak = affine_knots(kn[0].value, n_)
+            ak = affine_knots(kv, n_)
             if ak is None:
-                raise Undecided(f"knot vector `{src(kn[0].value)}` is not a recognised uniform construction")
+                raise Undecided(f"knot vector `{src(kv)}` is not a recognised uniform construction")
             a, step_ = ak
-            b, cnt = a + 11 * step_, sp.Integer(12)
-            t = n_.ev(tp[0].value)
+            t = n_.ev(tv)
             spacing = alg_equal(step_, dx)
             rel = alg_equal(t - a, 4 * dx)
             ok = bool(spacing and rel)
             why = ("the auxiliary uniform knot vector has spacing dx and the evaluation point is 4 cells from ITS first knot: the "
                    "boundary integrals do not depend on where the domain starts") if ok else \
-                (f"auxiliary knots start at {a} with spacing {(b - a) / (cnt - 1)}, evaluation point {t}: the point is {sp.simplify(t - a)} "
+                (f"auxiliary knots start at {a} with spacing {step_}, evaluation point {t}: the point is {sp.simplify(t - a)} "
                  "from the first knot instead of 4 dx - for a domain that does not start at the knot origin the boundary integrals are wrong")
         except Undecided as e:
-            why = f"not extractable: {e}"
-    chk.ob("Q3-uniform-cubic", kn[0] if kn else ifs[0], "auxiliary knots and test point share one origin", ok, why, file=U.SPLINES,
-           func="BSplines._build_integrals")
-    okb = contains(cu, "for i in range(3):\n    outside = dx * sum(values[:3 - i])\n    self._integrals[i] -= outside\n    self._integrals[-i - 1] -= outside")
-    old_b_form = contains(cu, "for i in range(3):\n    step = dx * (1 - sum(values[:3 - i]))\n    self._integrals[i] = step\n    self._integrals[-i - 1] = step")
-    chk.pat("Q3-uniform-cubic", ifs[0], "boundary functions lose the part outside the domain, symmetrically, by subtraction", okb,
+            ok, why = None, f"not extractable: {e}"
+    chk.ob("Q3-uniform-cubic", kn_node if kn_node is not None else fn, "auxiliary knots and test point share one origin", ok, why, file=U.SPLINES,
+           func=BI)
+    okb = has("for i in range(3):\n    outside = dx * sum(values[:3 - i])\n    self._integrals[i] -= outside\n    self._integrals[-i - 1] -= outside") or \
+        has("for i in range(3):\n    self._integrals[i] -= dx * sum(values[:3 - i])\n    self._integrals[-i - 1] -= dx * sum(values[:3 - i])") or \
+        has("for i in range(3):\n    outside = dx * np.sum(values[:3 - i])\n    self._integrals[i] -= outside\n    self._integrals[-i - 1] -= outside")
+    assigned = [st for st in _flat(cu) if isinstance(st, ast.For) and
+                [x for x in ast.walk(st) if isinstance(x, ast.Assign) and isinstance(x.targets[0], ast.Subscript) and _is_integrals(x.targets[0].value)
+                 and src(x.targets[0].slice).replace(" ", "") in ("i", "-i-1", "-1-i", "-(i+1)")
+                 and not any(_is_integrals(y) for y in ast.walk(x.value))]]
+    chk.pat("Q3-uniform-cubic", fn, "boundary functions lose the part outside the domain, symmetrically, by subtraction", okb,
             "the three functions cut by each boundary lose dx x (the mass outside), subtracted at both ends so that a function cut by "
             "both boundaries (1 or 2 cells) loses both parts",
             ("the boundary integrals are assigned, not reduced: with one or two cells the assignments of the two ends overwrite each "
-             "other and the stored integrals (hence the weights) are wrong") if old_b_form and not okb else None,
-            file=U.SPLINES, func="BSplines._build_integrals")
-    # general branch: one formula for every unwrapped function, the wrapped copies of a periodic space included
-    gen = ifs[0].orelse
-    loops = [n for n in gen if isinstance(n, ast.For)]
+             "other and the stored integrals (hence the weights) are wrong") if assigned and not okb else None,
+            file=U.SPLINES, func=BI)
+    # ---- general branch: one formula for every unwrapped function, the wrapped copies of a periodic space included
+    gen = bodies[(False, True)]
+    table = _space_table(True)
+    loops = [st for st in _flat(gen) if isinstance(st, ast.For) and
+             any(isinstance(x, ast.Assign) and isinstance(x.targets[0], ast.Subscript) and _is_integrals(x.targets[0].value) for x in ast.walk(st))]
     okw, badw = False, None
-    if loops and isinstance(loops[0].iter, ast.Call) and src(loops[0].iter.func) == "range" and len(loops[0].iter.args) == 1:
-        from ..core import same_expr
-        rng = loops[0].iter.args[0]
-        stores = [n for n in ast.walk(loops[0]) if isinstance(n, ast.Assign) and src(n.targets[0]) == "self._integrals[i]"]
-        if same_expr(rng, "self.ncells + d") and len(stores) == 1:
+    if loops and isinstance(loops[0].iter, ast.Call) and src(loops[0].iter.func) == "range" and len(loops[0].iter.args) == 1 \
+            and isinstance(loops[0].target, ast.Name):
+        iv = loops[0].target.id
+        rng = _int_attr(loops[0].iter.args[0], table)
+        stores = [x for x in ast.walk(loops[0]) if isinstance(x, ast.Assign) and isinstance(x.targets[0], ast.Subscript) and
+                  _is_integrals(x.targets[0].value) and src(x.targets[0].slice) == iv]
+        if rng is not None and _same(rng, NC + D) and len(stores) == 1:
             okw = True
-        elif src(rng) in ("n", "self.nbasis"):
-            mirror = [n for st in gen for n in ast.walk(st) if isinstance(n, ast.Assign) and isinstance(n.targets[0], ast.Subscript)
-                      and src(n.targets[0].value) == "self._integrals" and isinstance(n.value, ast.Subscript)
-                      and src(n.value.value) == "self._integrals"]
+        elif rng is not None and _same(rng, NC):
+            mirror = [x for st in _flat(gen) if isinstance(st, ast.Assign) and isinstance(st.targets[0], ast.Subscript)
+                      and _is_integrals(st.targets[0].value) and isinstance(st.value, ast.Subscript) and _is_integrals(st.value.value)
+                      for x in [st]]
             if mirror:
                 badw = (f"`{src(mirror[0])}` copies the integrals of the wrapped functions from the first ones in reverse order: that "
                         "is their value only when the break points are symmetric (uniform grids); on a periodic non-uniform space "
                         "the stored integrals, and the quadrature weights, are wrong (weights do not sum to the domain length)")
-            else:
+            elif len(loops) == 1:
                 badw = ("only the first nbasis integrals are computed: on a periodic space the wrapped functions ncells..ncells+d-1 "
                         "keep uninitialised values")
-    chk.pat("Q3-integrals-storage", loops[0] if loops else ifs[0], "general: for i in range(self.ncells + d) with one formula", okw,
+    chk.pat("Q3-integrals-storage", loops[0] if loops else fn, "general: for i in range(self.ncells + d) with one formula", okw,
             "every unwrapped basis function, the wrapped copies of a periodic space included, is integrated by the same antiderivative "
-            "identity", badw, file=U.SPLINES, func="BSplines._build_integrals")
+            "identity", badw, file=U.SPLINES, func=BI)
 
 
 def integrals_not_memoised_on_summary(chk):
     """the stored integrals are a function of ALL break points: a memo table may not be keyed on a summary of them"""
-    fn = chk.func(U.SPLINES, "BSplines._build_integrals")
+    fn = chk.func(U.SPLINES, BI)
     hits = []
     for n in ast.walk(fn):
-        if isinstance(n, ast.If) and isinstance(n.test, ast.Compare) and len(n.test.ops) == 1 and isinstance(n.test.ops[0], ast.In) \
-                and any(isinstance(x, ast.Return) for x in n.body):
+        if isinstance(n, ast.If) and isinstance(n.test, ast.Compare) and len(n.test.ops) == 1 and isinstance(n.test.ops[0], (ast.In, ast.NotIn)):
+            # a table looked up by a key: the integrals are taken from it on one arm
+            arm = n.body if isinstance(n.test.ops[0], ast.In) else n.orelse
+            table = src(n.test.comparators[0])
+            takes = [x for st in arm for x in ast.walk(st) if isinstance(x, ast.Subscript) and src(x.value) == table] or \
+                [x for x in ast.walk(fn) if isinstance(x, ast.Subscript) and src(x.value) == table and isinstance(x.ctx, ast.Load)]
+            if not takes:
+                continue
             key = n.test.left
             if isinstance(key, ast.Name):
                 d = [a for a in ast.walk(fn) if isinstance(a, ast.Assign) and src(a.targets[0]) == key.id]
                 key = d[0].value if len(d) == 1 else key
+            # local names of the key that stand for the break points / knots
+            arrs = {}
+            for a in ast.walk(fn):
+                if isinstance(a, ast.Assign) and isinstance(a.targets[0], ast.Name) and src(a.value).split(".")[-1] in ("breaks", "knots", "_knots", "_breaks"):
+                    arrs[a.targets[0].id] = src(a.value)
+            def is_pts(e):
+                s_ = src(e)
+                return s_.split(".")[-1] in ("breaks", "knots", "_knots", "_breaks") or s_ in arrs
             # entries of the key that pick single elements of an array of break points / knots
             picks = [x for x in ast.walk(key) if isinstance(x, ast.Subscript) and isinstance(x.slice, (ast.Constant, ast.UnaryOp))
-                     and src(x.value).split(".")[-1] in ("breaks", "knots", "_knots", "_breaks")]
-            whole = [x for x in ast.walk(key) if isinstance(x, ast.Call) and src(x.func) in ("tuple", "bytes") or
-                     (isinstance(x, ast.Call) and isinstance(x.func, ast.Attribute) and x.func.attr in ("tobytes", "tostring"))]
+                     and is_pts(x.value)]
+            whole = [x for x in ast.walk(key) if (isinstance(x, ast.Call) and src(x.func) in ("tuple", "bytes") and x.args and is_pts(x.args[0])) or
+                     (isinstance(x, ast.Call) and isinstance(x.func, ast.Attribute) and x.func.attr in ("tobytes", "tostring") and is_pts(x.func.value))]
             hits.append((n, key, picks, whole))
     bad = [(n, key, picks) for n, key, picks, whole in hits if picks and not whole]
     chk.ob("Q3-integrals-not-memoised", bad[0][0] if bad else fn, "no memo table keyed on a summary of the break points",
@@ -189,7 +547,7 @@ def integrals_not_memoised_on_summary(chk):
            f"the integrals are taken from a table keyed on `{src(bad[0][1])[:90]}`: the key holds only {[src(p_) for p_ in bad[0][2]]} of the "
            "break points, so a non-uniform space built after another one with the same ends, first cell and cell count receives that "
            "other space's integrals and its quadrature weights no longer integrate its splines",
-           file=U.SPLINES, func="BSplines._build_integrals", nontrivial=False)
+           file=U.SPLINES, func=BI, nontrivial=False)
 
 
 def run(chk):
@@ -198,8 +556,9 @@ def run(chk):
         "basis integrals (periodic: integrals of the wrapped copies folded onto the first p entries of a copy); the stored integrals "
         "are not mutated; uniform-cubic interior integrals are dx and the auxiliary construction of the boundary integrals is "
         "translation invariant; boundary integrals of the clamped uniform cubic case are reduced (not assigned) at both ends; the "
-        "general branch integrates every unwrapped function, wrapped copies included, by one formula. The antiderivative identity "
-        "itself is numerical and is not re-derived.")
+        "general branch integrates every unwrapped function, wrapped copies included, by one formula. Each method is read as the "
+        "straight-line code it is on one kind of space (branches on periodicity / family resolved, attribute aliases and private "
+        "helper methods written back). The antiderivative identity itself is numerical and is not re-derived.")
     chk.in_file(U.INTERP)
     weights_mechanism(chk)
     uniform_cubic_integrals(chk)
